@@ -20,7 +20,7 @@ var numericPool = []string{
 }
 
 var boolPool = []string{
-	"true", "false", "TRUE", "FALSE", "True", "False", "tRuE", "fAlSe", "true ", " false", "truee", "tru", "fals", "t", "f", "yes", "no",
+	"true", "false", "TRUE", "FALSE", "True", "False", "tRuE", "fAlSe", "falſe", "FALſE", "ſ", "trué", "true ", " false", "truee", "tru", "fals", "t", "f", "yes", "no",
 	"null", "NULL", "Null", "nil", "undefined", "none", "truefalse", "true\x00", "\"true\"",
 }
 
